@@ -14,11 +14,11 @@ from ..models import tptref as tr
 ID = 'C07'
 RULE = ('irreducible row-stochastic matrices with rows on the simplex lattice: n=3 denominator 4 (2072 chains), n=4 '
         'denominator 2 (Q: every 3rd; T: all + denominator 3 every 5th) x all disjoint non-empty (sources,sinks) x '
-        'containers {ndarray (C, Fortran-ordered, transposed view, strided view), csr,csc,coo,lil} (sparse on every 2nd chain in Q) x lag {1,2.5}; state=(T,A,B,container); '
+        'containers {ndarray (C, Fortran-ordered, transposed view, strided view), csr,csc,coo,lil} (sparse on every 2nd chain in Q) x lag {1,2.5,1e-9,3e6} (residuals relative to the time unit); single states also as bare python/numpy ints; state=(T,A,B,container); '
         'non-trivial = non-reversible or periodic chain with >=1 intermediate state')
 ASSUMPTIONS = ['residual tolerance 1e-9 on the first-step equations (direct linear solves of well-conditioned small systems)',
                'scipy sparse matrix containers csr/csc/coo/lil']
-GUARDS = {'nonreversible': 500, 'multi_sink': 500, 'multi_source': 500, 'sparse': 500, 'dense_layouts': 200, 'periodic': 10, 'intermediate': 500}
+GUARDS = {'scalar_ids': 200, 'nonreversible': 500, 'multi_sink': 500, 'multi_source': 500, 'sparse': 500, 'dense_layouts': 200, 'periodic': 10, 'intermediate': 500}
 NSH = {'quick': 64, 'thorough': 256}
 CONTAINERS = ('ndarray', 'ndarrayF', 'ndarrayT', 'ndarrayS', 'csr', 'csc', 'coo', 'lil')
 
@@ -107,6 +107,23 @@ def check_case(case, ctx, pairs=None):
             ctx.guard('sparse')
         elif cont != 'ndarray':
             ctx.guard('dense_layouts')
+        # a single state may be given as a bare id (python int or numpy integer): same answer as the 1-element list
+        if len(A) == 1 and len(B) == 1:
+            for spell in (int, np.int64):
+                try:
+                    q1 = np.asarray(tpt.committors(M, spell(A[0]), spell(B[0]))).astype(float).ravel()
+                    qL = np.asarray(tpt.committors(M, A, B)).astype(float).ravel()
+                    m1 = np.asarray(tpt.mfpts(M, sinks=spell(B[0]), lagtime=2.5)).astype(float)
+                    mL = np.asarray(tpt.mfpts(M, sinks=B, lagtime=2.5)).astype(float)
+                    ctx.guard('scalar_ids')
+                    if q1.shape != qL.shape or np.abs(q1 - qL).max() > 0 or m1.shape != mL.shape or np.abs(m1 - mL).max() > 0:
+                        ctx.violation('tpt:scalar_id_differs_from_list:%s' % ctag, c,
+                                      'sinks=%r given as a bare %s: committors %r vs %r, mfpts shape %s vs %s' % (
+                                          B[0], spell.__name__, q1.tolist(), qL.tolist(), m1.shape, mL.shape))
+                        break
+                except Exception as e:
+                    ctx.violation('tpt:scalar_id_raises:%s:%s' % (ctag, type(e).__name__), c, 'bare state id raised %r (%r)' % (e, c))
+                    break
         # committors
         try:
             q = np.asarray(tpt.committors(M, A, B)).astype(float).ravel()
@@ -120,7 +137,7 @@ def check_case(case, ctx, pairs=None):
         except Exception as e:
             ctx.violation('committors:raises:%s:%s' % (ctag, type(e).__name__), c, 'committors raised %r on %r' % (e, c))
         # mfpts to the sink set
-        for tau in (1.0, 2.5):
+        for tau in (1.0, 2.5, 1e-9, 3e6):
             try:
                 m = np.asarray(tpt.mfpts(M, sinks=B, lagtime=tau)).astype(float).ravel()
                 if m.shape != (n,):
@@ -128,7 +145,7 @@ def check_case(case, ctx, pairs=None):
                     continue
                 r = tr.mfpt_residual(T, B, m, tau)
                 ctx.maxi('max_mfpt_residual', r)
-                if not np.isfinite(r) or r > 1e-9 * max(1.0, np.abs(m).max()):
+                if not np.isfinite(r) or r > 1e-9 * max(tau, np.abs(m).max()):      # relative to the time unit in use
                     ctx.violation('mfpts:equations:%s' % ctag, c, 'residual %g m=%r tau=%g (%r)' % (r, m.tolist(), tau, c))
             except Exception as e:
                 ctx.violation('mfpts:raises:%s:%s' % (ctag, type(e).__name__), c, 'mfpts raised %r on %r' % (e, c))
@@ -139,7 +156,7 @@ def check_case(case, ctx, pairs=None):
         c = dict(case, allpairs=True)
         try:
             for pops in (None, pi):
-                for tau in (1.0, 2.5):
+                for tau in (1.0, 2.5, 1e-9):
                     tab = np.asarray(tpt.mfpts(M, populations=None if pops is None else pops.copy(), lagtime=tau)).astype(float)
                     if tab.shape != (n, n):
                         ctx.violation('mfpts:allpairs_shape:%s' % ctag, c, 'shape %s' % (tab.shape,))
@@ -147,15 +164,16 @@ def check_case(case, ctx, pairs=None):
                     for j in range(n):
                         r = tr.mfpt_residual(T, [j], tab[:, j], tau)
                         single = np.asarray(tpt.mfpts(M, sinks=[j], lagtime=tau)).astype(float).ravel()
-                        scale = max(1.0, np.abs(single).max())
+                        scale = max(tau, np.abs(single).max())
                         if r > 1e-8 * scale or np.abs(single - tab[:, j]).max() > 1e-8 * scale:
                             ctx.violation('mfpts:allpairs_vs_single:%s' % ctag, c,
                                           'column %d: table %r single-sink %r residual %g (%r)' % (j, tab[:, j].tolist(), single.tolist(), r, c))
                             break
                     if tau == 1.0:
                         base = tab
-                    elif np.abs(tab - 2.5 * base).max() > 1e-9 * max(1.0, np.abs(tab).max()):
-                        ctx.violation('mfpts:not_linear_in_lag', c, 'table(2.5) != 2.5*table(1)')
+                    elif np.abs(tab - tau * base).max() > 1e-9 * max(tau, np.abs(tab).max()):
+                        ctx.violation('mfpts:not_linear_in_lag', c, 'table(lag=%g) != %g * table(lag=1): max deviation %g' % (
+                            tau, tau, np.abs(tab - tau * base).max()))
         except Exception as e:
             ctx.violation('mfpts:raises:%s:%s' % (ctag, type(e).__name__), c, 'all-pairs mfpts raised %r on %r' % (e, c))
     if not np.array_equal(mr.to_dense(M), before):
